@@ -74,7 +74,7 @@ def run(env, tier, seed, broken=None):
     cases = corpus_cases('C03')
     n = 0
     L = 5 if tier == 'quick' else 7
-    for h in histories(L, rng, 0.35 if tier == 'quick' else 0.3):
+    for h in histories(L, rng, 0.27 if tier == 'quick' else 0.3):
         cases.append({'id': 'h%d' % n, 'src': render(h)}); n += 1
         # the same history written on ONE line when a name is read, then declared, then read again: what a read means
         # may not depend on which other reads share its line
@@ -159,5 +159,5 @@ def run(env, tier, seed, broken=None):
     mism, ri, rm = diff_runs(env, cases)
     nontriv = set((ri[c['id']][0]['stdout'], ri[c['id']][0]['status']) for c in cases)
     return {'evaluations': len(cases), 'distinct_nontrivial': len(nontriv), 'mismatches': mism,
-            'rule': 'well-bracketed histories over {declare, assign, read} x {a, b}, enter block / for-header (declaring a, or the list a, b) / function (parameter b, called on exit), nesting <= 2, complete to length 4 and a %d%% sample of each extension up to length %d; redeclaration, undefined read/assign, shadowing, closure-sees-later-update probes; random programs of 8-40 statements over a colliding name pool; non-trivial = distinct (trace, status)' % (35 if tier == 'quick' else 30, L),
+            'rule': 'well-bracketed histories over {declare, assign, read} x {a, b}, enter block / for-header (declaring a, or the list a, b) / function (parameter b, called on exit), nesting <= 2, complete to length 4 and a %d%% sample of each extension up to length %d; redeclaration, undefined read/assign, shadowing, closure-sees-later-update probes; random programs of 8-40 statements over a colliding name pool; non-trivial = distinct (trace, status)' % (27 if tier == 'quick' else 30, L),
             'samples': [cases[200]['src'][:300], cases[-1]['src'][:200]]}
